@@ -429,8 +429,7 @@ func c01OneAnswer(c *Ctx) {
 			if !ok {
 				return
 			}
-			nm := ir.CallName(call)
-			if strings.HasSuffix(nm, ").respond") && passesWriter(call) {
+			if isRespondCall(c, call) {
 				sites = append(sites, call)
 			}
 		})
